@@ -154,6 +154,99 @@ theorem sevenzip_fixed_solid_counterexample :
     extractFolder true [markWanted Ops.documented maxMemorySize 11534336 true, markWanted Ops.documented maxMemorySize 5 true]
       = ⟨some 11534341, true, [5]⟩ := by decide
 
+/-! ## TAR member loop: link members -/
+
+/-- the member-type guard of the current source lets regular members through and nothing else
+    (hard links, symbolic links, directories, devices / FIFOs are skipped before the size test) -/
+theorem gen_tar_guard : ∀ k : TarKind, acceptOfTable tarGuardAccepts k = onlyReg k := by
+  intro k; cases k <;> decide
+
+/-- in the current source the size test stands before the `read()` of the member's handle, the type guard before the
+    `extractfile` call, and the function calls neither `extract` nor `extractall` -/
+theorem gen_tar_order :
+    eventBefore tarLoopEvents "size-test" "read" = true ∧ eventBefore tarLoopEvents "type-guard" "extractfile" = true ∧
+    tarBypassCalls = [] := by decide
+
+/-- under the documented guard every byte string the loop reads into memory is within the per-member limit,
+    for every member list (links with any header size, pointing anywhere) -/
+theorem tar_delivered_within_limit (limit : Nat) (ms : List TarMember) (h : TarFaithful ms) :
+    ∀ n ∈ tarLoopDelivered Ops.documented onlyReg true limit ms, n ≤ limit := by
+  intro n hn
+  simp only [tarLoopDelivered, List.mem_filterMap] at hn
+  obtain ⟨m, hm, hd⟩ := hn
+  split at hd
+  · rename_i hc
+    simp only [Bool.and_eq_true, Bool.not_eq_true', Bool.true_and] at hc
+    have hk : m.kind = .reg := by
+      cases hkk : m.kind <;> simp [onlyReg, hkk] at hc ⊢
+    have hs : ¬ m.size > limit := by
+      intro hgt
+      have := (member_skipped_iff .tar limit m.size).mpr hgt
+      simp [this] at hc
+    have := h m hm hk n hd
+    omega
+  · simp at hd
+example : TarFaithful [⟨11534336, .reg, some 11534336⟩, ⟨0, .hardlink, some 11534336⟩, ⟨7, .symlink, none⟩, ⟨5, .reg, some 5⟩] := by
+  intro m hm hk n hd
+  simp at hm
+  rcases hm with rfl | rfl | rfl | rfl <;> simp_all
+
+/-- … the same on the guard table, the comparison operators and the event order the translator read from the
+    current source -/
+theorem tar_gen_delivered_within_limit (limit : Nat) (ms : List TarMember) (h : TarFaithful ms) :
+    ∀ o, Ops.ofSites limitSites = some o →
+      ∀ n ∈ tarLoopDelivered o (acceptOfTable tarGuardAccepts) (eventBefore tarLoopEvents "size-test" "read") limit ms, n ≤ limit := by
+  intro o ho
+  rw [gen_ops_documented] at ho
+  cases ho
+  have hacc : acceptOfTable tarGuardAccepts = onlyReg := funext gen_tar_guard
+  rw [hacc, gen_tar_order.1]
+  exact tar_delivered_within_limit limit ms h
+
+/-- … and the loop never reads more than the archive's uncompressed payload in total (no member is read twice) -/
+theorem tar_delivered_total_le_payload (limit : Nat) (ms : List TarMember) (h : TarFaithful ms) :
+    (tarLoopDelivered Ops.documented onlyReg true limit ms).sum ≤ tarPayload ms := by
+  induction ms with
+  | nil => simp [tarLoopDelivered, tarPayload]
+  | cons m rest ih =>
+    have ih' := ih (fun x hx => h x (by simp [hx]))
+    have hm := h m (by simp)
+    unfold tarLoopDelivered tarPayload at *
+    by_cases hk : m.kind = .reg
+    · rw [List.filter_cons_of_pos (by simpa using hk), List.filterMap_cons]
+      split
+      · simp only [List.map_cons, List.sum_cons]; omega
+      · rename_i n hn
+        have hn' : m.delivers = some n := by
+          split at hn <;> simp_all
+        have := hm hk n hn'
+        simp only [List.map_cons, List.sum_cons]; omega
+    · rw [List.filter_cons_of_neg (by simpa using hk), List.filterMap_cons]
+      have hno : onlyReg m.kind = false := by
+        cases hkk : m.kind <;> simp_all [onlyReg]
+      simp only [hno, Bool.false_and]
+      exact ih'
+
+/-
+FULL STATEMENT for a loop that lets link members through (false): every chunk read is within the limit.
+-/
+/-- guard `member.isreg() or member.islnk()`: the link's own header says 0 bytes, so it passes the size test,
+    and its handle delivers the 11 MiB member it points at -/
+theorem tar_hardlink_counterexample :
+    let ms : List TarMember := [⟨11534336, .reg, some 11534336⟩, ⟨0, .hardlink, some 11534336⟩]
+    tarLoopDelivered Ops.documented (fun k => onlyReg k || decide (k = .hardlink)) true maxMemorySize ms = [11534336] ∧
+    11534336 > maxMemorySize ∧ tarPayload ms = 11534336 := by decide
+
+/-- the same through a symbolic link, and k links to one IN-limit member multiply the bytes read by k
+    (3 links to a 10 MiB member: 40 MiB read from a 10 MiB payload) -/
+theorem tar_symlink_counterexample :
+    let ms : List TarMember := [⟨10485760, .reg, some 10485760⟩, ⟨0, .symlink, some 10485760⟩, ⟨0, .symlink, some 10485760⟩, ⟨0, .symlink, some 10485760⟩]
+    (tarLoopDelivered Ops.documented (fun k => onlyReg k || decide (k = .symlink)) true maxMemorySize ms).sum = 4 * tarPayload ms := by decide
+
+/-- a loop that reads the handle before it tests the size delivers the oversize member itself -/
+theorem tar_read_before_size_test_counterexample :
+    tarLoopDelivered Ops.documented onlyReg false maxMemorySize [⟨11534336, .reg, some 11534336⟩] = [11534336] := by decide
+
 /-! ## ODS repeat expansion -/
 
 theorem rowValues_length_le (R : Nat) (hR : 100 ≤ R) (cells : List OdsCell)
@@ -199,6 +292,61 @@ theorem ods_empty_repeat_capped (n m : Int) (hn : n > 100) (hm : m > 100) :
     sheetShape [⟨m, [⟨n, true, 0⟩]⟩] = (0, 0) ∧ materialised [⟨m, [⟨n, true, 0⟩]⟩] = 1 := by
   simp [sheetShape, rawRows, rowValues, trimRows, materialised, hn, hm]
 example : (5000 : Int) > 100 := by decide
+
+/-! ### repeat independence of EMPTY runs ("irrespective of repeat counts")
+
+For the three kinds of empty run the format has, the cells the model materialises do not depend on the declared
+repeat count once it is above the cap (covered cells: for no count at all). -/
+
+private theorem rowValues_append (a b : List OdsCell) : rowValues (a ++ b) = rowValues a ++ rowValues b := by
+  simp [rowValues]
+
+private theorem rawRows_append (a b : List OdsRow) : rawRows (a ++ b) = rawRows a ++ rawRows b := by
+  simp [rawRows]
+
+/-- an empty `table:table-cell` run anywhere in a row: one placeholder cell whatever the count -/
+theorem ods_empty_cell_run_independent (n m : Int) (hn : n > 100) (hm : m > 100) (tl : Nat) (pre post : List OdsCell) :
+    rowValues (pre ++ ⟨n, true, tl⟩ :: post) = rowValues (pre ++ ⟨m, true, tl⟩ :: post) := by
+  rw [rowValues_append, rowValues_append]
+  congr 1
+  simp [rowValues, hn, hm]
+
+/-- a repeated row all of whose cells are empty, anywhere in the sheet: one row whatever the count -/
+theorem ods_empty_row_run_independent (n m : Int) (hn : n > 100) (hm : m > 100) (cells : List OdsCell)
+    (hempty : (rowValues cells).all id = true) (pre post : List OdsRow) :
+    rawRows (pre ++ ⟨n, cells⟩ :: post) = rawRows (pre ++ ⟨m, cells⟩ :: post) := by
+  rw [rawRows_append, rawRows_append]
+  congr 1
+  have h1 : n > 100 ∧ (rowValues cells).all id = true := ⟨hn, hempty⟩
+  have h2 : m > 100 ∧ (rowValues cells).all id = true := ⟨hm, hempty⟩
+  simp only [rawRows, List.flatMap_cons, if_pos h1, if_pos h2]
+example : (rowValues [⟨1, true, 0⟩, ⟨500, true, 0⟩]).all id = true := by decide
+
+/-- a `table:covered-table-cell` run: never visited, for every count (no cap involved) -/
+theorem ods_covered_run_independent (n m : Int) (pre post : List OdsChild) :
+    childCells (pre ++ .covered n :: post) = childCells (pre ++ .covered m :: post) := by
+  simp [childCells, OdsChild.cell?]
+
+/-- … hence the sheet and the number of materialised cells are the same for every covered count -/
+theorem ods_covered_sheet_independent (n m : Int) (rr : Int) (pre post : List OdsChild) (before after : List OdsRowC) :
+    sheetShapeC (before ++ ⟨rr, pre ++ .covered n :: post⟩ :: after) = sheetShapeC (before ++ ⟨rr, pre ++ .covered m :: post⟩ :: after) ∧
+    materialisedC (before ++ ⟨rr, pre ++ .covered n :: post⟩ :: after) = materialisedC (before ++ ⟨rr, pre ++ .covered m :: post⟩ :: after) := by
+  simp [sheetShapeC, materialisedC, OdsRowC.toRow, ods_covered_run_independent n m pre post]
+
+/-- the three sheets of the harness's repeat-independence oracle, for ALL counts above the cap: same shape -/
+theorem ods_oracle_shapes_independent (n m : Int) (hn : n > 100) (hm : m > 100) :
+    sheetShape [⟨1, [⟨n, true, 0⟩, ⟨1, false, 1⟩]⟩] = sheetShape [⟨1, [⟨m, true, 0⟩, ⟨1, false, 1⟩]⟩] ∧
+    sheetShape [⟨n, [⟨1, true, 0⟩]⟩, ⟨1, [⟨1, false, 1⟩]⟩] = sheetShape [⟨m, [⟨1, true, 0⟩]⟩, ⟨1, [⟨1, false, 1⟩]⟩] ∧
+    sheetShapeC [⟨1, [.covered n, .cell ⟨1, false, 1⟩]⟩] = sheetShapeC [⟨1, [.covered m, .cell ⟨1, false, 1⟩]⟩] := by
+  refine ⟨?_, ?_, ?_⟩
+  · have := ods_empty_cell_run_independent n m hn hm 0 [] [⟨1, false, 1⟩]
+    simp only [List.nil_append] at this
+    simp [sheetShape, rawRows, this]
+  · have := ods_empty_row_run_independent n m hn hm [⟨1, true, 0⟩] (by decide) [] [⟨1, [⟨1, false, 1⟩]⟩]
+    simp only [List.nil_append] at this
+    simp [sheetShape, this]
+  · exact (ods_covered_sheet_independent n m 1 [] [.cell ⟨1, false, 1⟩] [] []).1
+example : (2000 : Int) > 100 ∧ (200 : Int) > 100 := by decide
 
 /-- the 675-byte finding: 300 rows × 5000 columns = 1 500 000 cells from one cell element … -/
 theorem ods_repeat_amplification_witness :
